@@ -235,6 +235,12 @@ theorem operands_unchanged_structural :
     Gen.ufuncConvertsCopy = true ∧ Gen.ufuncWritesSelf = false ∧
     Gen.ufuncResultWaveUnitFromSelf = true ∧ Gen.ufuncResultValueUnitFromSelf = true := ⟨rfl, rfl, rfl, rfl⟩
 
+/-- which operand kinds `Spectrum._ufunc` combines element-wise on the unchanged grid (regenerated from its `isinstance` tuple):
+Python numbers, NumPy scalars of every type (`np.generic`), lists/tuples and arrays -/
+theorem scalar_kinds_include_numpy :
+    "int" ∈ Gen.ufuncElementwiseTypes ∧ "float" ∈ Gen.ufuncElementwiseTypes ∧ "np.generic" ∈ Gen.ufuncElementwiseTypes ∧
+    "np.ndarray" ∈ Gen.ufuncElementwiseTypes ∧ "list" ∈ Gen.ufuncElementwiseTypes := by decide
+
 /-- scalar and equal-length vector operands act element-wise on the unchanged wavelength grid -/
 theorem scalar_vector_elementwise (op : ℚ → ℚ → ℚ) (s : Spectrum) (c : ℚ) (v : List ℚ) (hv : v.length = s.value.length) :
     (ufuncScalar op s c).wave = s.wave ∧ (ufuncScalar op s c).value = s.value.map (op · c) ∧
